@@ -375,6 +375,60 @@ def _expand_ifexp(block: List[ast.stmt]) -> List[ast.stmt]:
 
 
 # ----------------------------------------------------------------------------------------------
+# N15: `if a < b: return a else: return b`  ->  `return min(a, b)`   (likewise for an assignment, and max)
+# ----------------------------------------------------------------------------------------------
+
+def _select_minmax(block: List[ast.stmt]) -> List[ast.stmt]:
+    out: List[ast.stmt] = []
+    for st in block:
+        if isinstance(st, (ast.FunctionDef, ast.ClassDef)):
+            out.append(st)
+            continue
+        for b in _blocks_of(st):
+            b[:] = _select_minmax(b)
+        new = None
+        if isinstance(st, ast.If) and len(st.body) == 1 and len(st.orelse) == 1 and isinstance(st.test, ast.Compare) \
+                and len(st.test.ops) == 1 and isinstance(st.test.ops[0], (ast.Lt, ast.LtE, ast.Gt, ast.GtE)):
+            a, b = st.body[0], st.orelse[0]
+            va = vb = None
+            if isinstance(a, ast.Return) and isinstance(b, ast.Return) and a.value is not None and b.value is not None:
+                va, vb = a.value, b.value
+                mk = lambda e: ast.Return(value=e)
+            elif isinstance(a, ast.Assign) and isinstance(b, ast.Assign) and len(a.targets) == 1 and len(b.targets) == 1 \
+                    and isinstance(a.targets[0], ast.Name) and ast.dump(a.targets[0]) == ast.dump(b.targets[0]):
+                va, vb = a.value, b.value
+                tg = a.targets[0]
+                mk = lambda e: ast.Assign(targets=[tg], value=e)
+            if va is not None and _is_pure_expr(va) and _is_pure_expr(vb):
+                l, r = ast.dump(st.test.left), ast.dump(st.test.comparators[0])
+                less = isinstance(st.test.ops[0], (ast.Lt, ast.LtE))
+                da, db = ast.dump(va), ast.dump(vb)
+                fn_ = None
+                if (da, db) == (l, r):
+                    fn_ = 'min' if less else 'max'       # if l < r: l else: r
+                elif (da, db) == (r, l):
+                    fn_ = 'max' if less else 'min'       # if l < r: r else: l
+                if fn_:
+                    args = sorted([va, vb], key=lambda e: ast.unparse(e))
+                    new = _fix(mk(ast.Call(func=ast.Name(id=fn_, ctx=ast.Load()), args=args, keywords=[])), st)
+        out.append(new if new is not None else st)
+    return out
+
+
+class _SortMinMaxArgs(ast.NodeTransformer):
+    """two-argument min/max of side-effect free operands: canonical argument order (ties return equal values)"""
+    def visit_Call(self, node):
+        self.generic_visit(node)
+        if isinstance(node.func, ast.Name) and node.func.id in ('min', 'max', 'fmin', 'fmax') and len(node.args) == 2 \
+                and not node.keywords and all(_is_pure_expr(a) for a in node.args):
+            node.args = sorted(node.args, key=lambda e: ast.unparse(e))
+        return node
+
+    def visit_FunctionDef(self, node):
+        return node
+
+
+# ----------------------------------------------------------------------------------------------
 # N3: branch orientation
 # ----------------------------------------------------------------------------------------------
 
@@ -2384,8 +2438,10 @@ def normalize_function(fn: ast.FunctionDef, module_helpers: Dict[str, ast.Functi
         _invalidate()
         fn.body = _expand_ifexp(fn.body)
         fn.body = _orient(fn.body, False, True)
+        fn.body = _select_minmax(fn.body)
         for st in fn.body:
             _LenTests().visit(st)
+            _SortMinMaxArgs().visit(st)
         _invalidate()
         _order_block(fn.body)
         _invalidate()
